@@ -11,7 +11,7 @@ import MiniMoka.Lemmas.SketchLaws
 namespace MiniMoka
 namespace Props
 
-open Unsync
+open Unsync Unsync.Admit
 
 /-- The admission loop of `admit` in closed form (pure statement about the loop): with
 `nodes` the probation list in recency order, weights `wOf s n.key` and popularity estimates
@@ -165,9 +165,19 @@ theorem C13_zero_weight {p : Params} (hq : NoQuirks p) {s : UState}
     (by rw [hzero]; exact shortestPre_zero _) (by simpa using hpos)
   exact ⟨h1, fun k' hne => by simpa using h2 k' hne⟩
 
+/-- **C13 on traces.** For every configuration of the current code (any capacity incl. none,
+any weigher, hasher, ttl/tti; `SmallSketch` is the documented sketch-size limit) and every
+history, the C13 oracle accepts the model's trace: in every window `snap, freq k, ins k v, snap`
+in which `k` is new, the cache is calm (nothing expired, not over capacity), the candidate is
+not oversized and finds no room, the keys resident afterwards are those predicted from the
+first snapshot by the closed formula (`predictAdmission`). -/
+theorem C13_unsync_oracle (p : Params) (hq : NoQuirks p) (hsm : SmallSketch p) (h : List Op) :
+    Spec.oracleC13 .unsync p.cap p.ttl p.tti p.weigh (Unsync.trace p h) = true :=
+  oracleC13_trace sketchLaws hq hsm h
+
 /-! ### non-vacuity -/
 
-open Unsync.Ex
+open Unsync.Admit.Ex
 
 /-- The hypotheses of `C13_unsync_admission` are met by a reachable state of a concrete cache
 (capacity 2, residents 1 and 2, key 3 looked up twice), and its admitted branch fires: the
